@@ -88,7 +88,12 @@ def outcome(p, script):
     return (v, p.error, tuple(p.error_pos))
 
 
+DEFS0 = None
+
+
 def _pristine():
+    global DEFS0
+    DEFS0 = definitions_snapshot()          # before this process has parsed anything
     out = []
     for s in CORPUS:
         SC.RequireCommand.loaded_extensions = []
@@ -165,7 +170,8 @@ def _havoc_body(info, s, brackets, expected, comments, strlist, junk, pos, exts)
     got = outcome(p, script)
     after = notrace(definitions_snapshot)
     want = EXPECTED[si]
-    if before != after:
+    if after != DEFS0:
+        before = DEFS0
         changed = sorted(k for k in before if before[k] != after.get(k))
         raise Violation("C13/parse-mutates-shared-definitions/%s" % (changed[0] if changed else "?"),
                         {"script": notrace(_txt, script), "changed": changed})
@@ -285,7 +291,8 @@ def _load_outcome(si, between):
     SC.RequireCommand.loaded_extensions = []
     p = Parser()
     p.parse(CORPUS[si])
-    SC.RequireCommand.loaded_extensions = between      # what other parsers did in the meantime
+    if between is not None:
+        SC.RequireCommand.loaded_extensions = between  # what other parsers did in the meantime
     fs = FiltersSet("t")
     try:
         fs.from_parser_result(p)
@@ -296,9 +303,11 @@ def _load_outcome(si, between):
 
 def _fload_body(info, s, exts):
     si = LOADABLE[P.decode(s, NLOAD)]
-    want = notrace(_load_outcome, si, [])
+    want = notrace(_load_outcome, si, None)        # nobody touched the global list between parse and load
     es = ExtSet().setup(dict(zip(P.ALL_EXT, exts)))
     es.resume = True
+    # another parser ran in between: it left an arbitrary list behind (membership symbolic, and some content)
+    es.extend(["x-left-behind", "envelope"] if bool(exts[0]) else [])
     if is_tracing():
         with NoTracing():
             got = _load_outcome(si, es)
